@@ -46,7 +46,7 @@ class Check(PropCheck):
             if rng.random() < 0.12:
                 # the whole tree on a tiny / huge scale (a drawing in another unit): nothing may depend on an absolute epsilon
                 ops += ['rescale ' + vf.enc_len(rng.choice([2.0 ** -70, 2.0 ** -55, 2.0 ** -200, 2.0 ** 80]))]
-            f = rng.choice([2.0, 0.5, 10.0, 0.001, -1.0, 3.7])
+            f = rng.choice([2.0, 0.5, 10.0, 0.001, -1.0, 3.7]) if rng.random() < 0.85 else rng.choice([0.0, -0.0, 1e-310, 5e-324, 1.0, 2.0 ** -1040])
             ops += ['dump', 'layout', 'layout ' + vf.enc_len(f)]
             if rng.random() < 0.1:
                 # a missing length must be refused
